@@ -257,7 +257,10 @@ where
     let q = |x: f64| -> f64 { crate::util::Bits::as_f64(&T::of(x)) };
     let cov = random_cov(g);
     let cov = [[q(cov[0][0]), q(cov[0][1])], [q(cov[0][1]), q(cov[1][1])]];
-    let mean = [q(g.uniform(-5.0, 5.0)), q(g.uniform(-5.0, 5.0))];
+    // sometimes centred hundreds to thousands of standard deviations away from the origin
+    let sd0 = cov[0][0].max(cov[1][1]).sqrt();
+    let off = if g.chance(0.3) { g.log_uniform(1e2, 1e4) * sd0 } else { 0.0 };
+    let mean = [q(g.uniform(-5.0, 5.0) + off), q(g.uniform(-5.0, 5.0) - off * g.uniform(0.2, 1.0))];
     let lib = DiffableGaussian2D::<T>::new([T::of(mean[0]), T::of(mean[1])], [[T::of(cov[0][0]), T::of(cov[0][1])], [T::of(cov[1][0]), T::of(cov[1][1])]]);
     let r = Gauss2Ref { mean, cov };
     let rp = Gauss2Ref {
